@@ -3,6 +3,7 @@ package main
 // `govc check --property Cxx --tier quick|thorough`: decide one property.
 
 import (
+	"golang.org/x/tools/go/ssa"
 	"encoding/json"
 	"flag"
 	"fmt"
@@ -205,8 +206,9 @@ func runProperty(repo, verif, prop string, cfg *PropCfg, tier string, overlay ma
 		}
 		if overlay != nil {
 			// selftest: verification is modular — only functions whose own source file is patched can change verdict
+			// (its own file, or the file of a callee without contract, which is inlined into it)
 			if fn := e.Funcs[k]; fn != nil && fn.Pos().IsValid() {
-				if _, patched := overlay[fn.Prog.Fset.Position(fn.Pos()).Filename]; !patched {
+				if !e.dependsOnPatched(fn, overlay) {
 					continue
 				}
 			}
@@ -456,6 +458,47 @@ func runProperty(repo, verif, prop string, cfg *PropCfg, tier string, overlay ma
 		}
 	}
 	return res
+}
+
+// dependsOnPatched: fn, a closure defined in it, or a function it reaches through static calls without passing a function
+// under contract (those are used by contract, not by body) is defined in a patched file.
+func (e *Engine) dependsOnPatched(fn *ssa.Function, overlay map[string][]byte) bool {
+	seen := map[*ssa.Function]bool{}
+	var visit func(f *ssa.Function, depth int) bool
+	visit = func(f *ssa.Function, depth int) bool {
+		if f == nil || seen[f] || depth > 6 {
+			return false
+		}
+		seen[f] = true
+		if f.Pos().IsValid() {
+			if _, patched := overlay[f.Prog.Fset.Position(f.Pos()).Filename]; patched {
+				return true
+			}
+		}
+		for _, b := range f.Blocks {
+			for _, in := range b.Instrs {
+				switch x := in.(type) {
+				case *ssa.MakeClosure:
+					if cf, ok := x.Fn.(*ssa.Function); ok && visit(cf, depth+1) {
+						return true
+					}
+				case ssa.CallInstruction:
+					if callee := x.Common().StaticCallee(); callee != nil && callee != fn {
+						if depth > 0 || callee.Parent() == nil {
+							if e.ContractFor(callee) != nil && callee != fn {
+								continue
+							}
+						}
+						if visit(callee, depth+1) {
+							return true
+						}
+					}
+				}
+			}
+		}
+		return false
+	}
+	return visit(fn, 0)
 }
 
 func minInt(a, b int) int {
